@@ -136,8 +136,9 @@ Theorem C20_render_sensitive_reference_partial :
 Proof. exact sensitive_reference. Qed.
 Print Assumptions C20_render_sensitive_reference_partial.
 
-(* an element of an array held by a feature of a listed structure (e, e': primitives, None or references to non-array
-   structures whose reprs c, c' differ) *)
+(* an element of an array held by a feature of a listed structure (e, e': primitives, None, references to non-array
+   structures or -- since 23e9ca1 -- references to arrays that have an anchor, i.e. listed arrays; their reprs c, c' differ).
+   The array a is expanded by content in the cell of the feature; arrays nested IN it appear as their anchors. *)
 Theorem C20_render_sensitive_array_element_partial :
   forall (hash : tname -> fsobj -> Z) (sort : (item -> item -> Z) -> list item -> list item) (ff : flt -> string)
          (rs : string -> string), sort_contract sort ->
@@ -171,6 +172,27 @@ Theorem C20_render_sensitive_listed_array_element_partial :
   rows_of hash sort ff rs o s vs (hset h a (set_slot fa "elements" (VList (pre ++ e' :: post)))) found <> Ok R.
 Proof. exact sensitive_array_element_listed. Qed.
 Print Assumptions C20_render_sensitive_listed_array_element_partial.
+
+(* 23e9ca1: an array met while another array is being rendered (act non-empty: inside the row of a listed array, or inside
+   the cell of an array held by a feature) is referred to by its anchor when it has one ... *)
+Theorem C20_nested_array_by_anchor :
+  forall (k : nat) (h : heap) (d : adict) (act : list oid) (o : oid) (f : fsobj) (a : string),
+  hget h o = Some f -> is_array_name (o_type f) = true -> act <> [] -> dget (o_id f) d = Some a ->
+  render_val (S k) h d act (VRef o) = Ok (PStr a).
+Proof. exact render_val_nested_array. Qed.
+Print Assumptions C20_nested_array_by_anchor.
+(* ... so a change of the elements of such a nested array b does NOT show in the row of a listed array a it is nested in
+   (honest restatement of array-element sensitivity for nested arrays): it shows in b's own row, by
+   C20_render_sensitive_listed_array_element_partial applied to b, which is a listed structure *)
+Theorem C20_nested_array_change_not_in_outer_row :
+  forall (ff : flt -> string) (rs : string -> string) (vs : list cview) (h : heap) (d : adict) (ti : tinfo) (isann : bool)
+         (a : oid) (fa : fsobj) (b : oid) (fb fb' : fsobj) (ab : string),
+  a <> b -> is_array_name (o_type fa) = true ->
+  hget h b = Some fb -> is_array_name (o_type fb) = true -> o_type fb' = o_type fb -> o_id fb' = o_id fb ->
+  dget (o_id fb) d = Some ab ->
+  render_fs ff rs vs (hset h b fb') d ti isann (a, fa) = render_fs ff rs vs h d ti isann (a, fa).
+Proof. exact listed_array_row_ignores_nested. Qed.
+Print Assumptions C20_nested_array_change_not_in_outer_row.
 
 (* the view (sofa) of a listed structure; view names without '(' (the disambiguation counter is written in parentheses) *)
 Theorem C20_render_sensitive_view_partial :
@@ -206,7 +228,7 @@ Theorem C20_sort_contract_satisfiable : sort_contract isort.
 Proof. exact isort_contract. Qed.
 Print Assumptions C20_sort_contract_satisfiable.
 
-(* ---- regression evidence: the mechanisms before the repairs 218ccba and bb0740a violate the property ---- *)
+(* ---- regression evidence: the mechanisms before the repairs 218ccba, bb0740a and 23e9ca1 violate the property ---- *)
 Theorem C20_compare_mixed_refuted :
   unique_keysb [x_noffs; a_offs] = true /\
   (forall hash, cmp_old hash "a.T" x_noffs a_offs < 0 /\ cmp_old hash "a.T" a_offs x_noffs < 0) /\
@@ -217,6 +239,14 @@ Print Assumptions C20_compare_mixed_refuted.
 Theorem C20_cyclic_array_old_refuted : forall fuel d, render_val_old fuel self_array d (VRef 1%N) = OutOfFuel.
 Proof. exact cyclic_array_old_refuted. Qed.
 Print Assumptions C20_cyclic_array_old_refuted.
+
+(* between bb0740a and 23e9ca1 an array nested in an array was expanded in place: 2^n leaves for a chain of n arrays each
+   holding the next one twice (16, 256, 4096 for n = 4, 8, 12); the current mechanism renders two anchors *)
+Theorem C20_nested_array_expansion_old_refuted :
+  chain_cell_mid 4 = Some 16%N /\ chain_cell_mid 8 = Some 256%N /\ chain_cell_mid 12 = Some 4096%N /\
+  chain_cell_new 4 = Some 2%N /\ chain_cell_new 8 = Some 2%N /\ chain_cell_new 12 = Some 2%N.
+Proof. exact nested_array_expansion_old_refuted. Qed.
+Print Assumptions C20_nested_array_expansion_old_refuted.
 
 (* ---- open findings (known_findings.json: null_sentinel_string, view_of_sofaless_fs): without the side premises of the
    sensitivity theorems the property as written is false of the CURRENT mechanism ---- *)
@@ -285,3 +315,28 @@ Example C20_premises_hold :
           (hset ex_heap 5%N (mkFs "uima.cas.IntegerArray" (Some 15) [("elements", VList [VInt 1; VInt 3])])) ex_found
     <> ex_rows (ex_views [1; 2; 4]%N) ex_heap ex_found.
 Proof. vm_compute. repeat split; try reflexivity; discriminate. Qed.
+
+(* ---- non-vacuity for nested arrays (23e9ca1): a listed FSArray holding a listed IntegerArray twice and itself once; the
+   outer row shows anchors only, a change inside the IntegerArray shows in its own row and leaves the outer row alone ---- *)
+Definition na_sch : schema :=
+  [mkTi "uima.cas.FSArray" ["uima.cas.FSArray"; "uima.cas.ArrayBase"; "uima.cas.TOP"]
+     [mkFd "elements" "elements" "uima.cas.TOP" None false];
+   mkTi "uima.cas.IntegerArray" ["uima.cas.IntegerArray"; "uima.cas.ArrayBase"; "uima.cas.TOP"]
+     [mkFd "elements" "elements" "uima.cas.Integer" None false]].
+Definition na_views : list cview := [mkView (mkSofa 1 1 "_InitialView" (Some [104]%N) None None None) [1%N]].
+Definition na_heap (l : list val) : heap :=
+  [(1%N, mkFs "uima.cas.FSArray" (Some 11) [("elements", VList [VRef 2%N; VRef 1%N; VRef 2%N])]);
+   (2%N, mkFs "uima.cas.IntegerArray" (Some 12) [("elements", VList l)])].
+Definition na_rows (l : list val) : res (list row) :=
+  rows_of (fun _ _ => 0) isort (fun x => x) (fun s => "'" +++ s +++ "'") (mkOpts true true []) na_sch na_views (na_heap l)
+          [1; 2]%N.
+Example C20_nested_array_rows :
+  unique_offsets_per_type (na_heap [VInt 1; VInt 2]) [1; 2]%N = true /\
+  wf_render na_sch na_views (na_heap [VInt 1; VInt 2]) [1; 2]%N = true /\
+  na_rows [VInt 1; VInt 2] = Ok
+    [["uima.cas.FSArray"]; ["<ANCHOR>"; "elements"]; ["FSArray*"; "['IntegerArray', 'FSArray*', 'IntegerArray']"];
+     ["uima.cas.IntegerArray"]; ["<ANCHOR>"; "elements"]; ["IntegerArray"; "[1, 2]"]] /\
+  na_rows [VInt 1; VInt 3] = Ok
+    [["uima.cas.FSArray"]; ["<ANCHOR>"; "elements"]; ["FSArray*"; "['IntegerArray', 'FSArray*', 'IntegerArray']"];
+     ["uima.cas.IntegerArray"]; ["<ANCHOR>"; "elements"]; ["IntegerArray"; "[1, 3]"]].
+Proof. vm_compute. repeat split; reflexivity. Qed.
